@@ -127,6 +127,23 @@ func genC06(r *Rng, tier string, emit func(Case)) {
 		ck := chainhash.DoubleHashB(b)[:4]
 		full := append(append([]byte{}, b...), ck...)
 		e("wifdec", "recomputed", hs(base58.Encode(full)))
+		// payloads whose total length is 37 or 38 PLUS a multiple of 256 (a length kept in one byte would take them for
+		// a WIF): a valid 33/34-byte front, filler, and as last four bytes the checksum of the front - or of everything
+		if i%10 == 0 {
+			for _, front := range [][]byte{body, append(append([]byte{}, body...), 1)} {
+				for _, extra := range []int{256, 512} {
+					for _, over := range [][]byte{front, nil} {
+						p := append(append([]byte{}, front...), r.Bytes(extra)...)
+						src := over
+						if src == nil {
+							src = p
+						}
+						p = append(p, chainhash.DoubleHashB(src)[:4]...)
+						e("wifdec", "longlen", hs(base58.Encode(p)))
+					}
+				}
+			}
+		}
 		// each checksum bit flipped / payload bit flipped without recomputation
 		good := append(append([]byte{}, body...), chainhash.DoubleHashB(body)[:4]...)
 		if comp {
